@@ -2,6 +2,7 @@
 package common
 
 import (
+	"errors"
 	"os"
 	"strings"
 	"time"
@@ -14,6 +15,7 @@ import (
 type verifFileInfo struct {
 	name string
 	dir  bool
+	link bool
 }
 
 func (f verifFileInfo) Name() string       { return f.name }
@@ -24,6 +26,9 @@ func (f verifFileInfo) Sys() interface{}   { return nil }
 func (f verifFileInfo) Mode() os.FileMode {
 	if f.dir {
 		return os.ModeDir
+	}
+	if f.link {
+		return os.ModeSymlink
 	}
 	return 0
 }
@@ -53,4 +58,55 @@ func verifModelDirents(run *ParallelRun, dir string) []os.FileInfo {
 		out = append(out, verifFileInfo{name: rest, dir: isDir})
 	}
 	return out
+}
+
+// One level lower still: ioutil.ReadDir itself and the os.Stat behind isDir, over the virtual file system,
+// with symbolic links to files. With these two models `dirents` (semaphore, error path) is the real code too.
+func verifModelReadDir(dir string) ([]os.FileInfo, error) {
+	top := dir
+	for len(top) > 1 && strings.HasSuffix(top, "/") {
+		top = top[:len(top)-1]
+	}
+	all := verifVFSList()
+	for _, name := range all {
+		if name == top {
+			return nil, errors.New("readdirent " + top + ": not a directory")
+		}
+	}
+	top += "/"
+	var out []os.FileInfo
+	last := ""
+	for _, name := range all { // sorted
+		if !strings.HasPrefix(name, top) {
+			continue
+		}
+		rest := name[len(top):]
+		isDir := false
+		if k := strings.Index(rest, "/"); k >= 0 {
+			rest, isDir = rest[:k], true
+		}
+		if rest == last {
+			continue
+		}
+		last = rest
+		out = append(out, verifFileInfo{name: rest, dir: isDir, link: !isDir && verifVFSIsLink(top+rest)})
+	}
+	if len(out) == 0 {
+		return nil, errors.New("open " + dir + ": no such file or directory")
+	}
+	return out, nil
+}
+
+func verifModelIsDir(path string) bool {
+	top := path
+	for len(top) > 1 && strings.HasSuffix(top, "/") {
+		top = top[:len(top)-1]
+	}
+	top += "/"
+	for _, name := range verifVFSList() {
+		if strings.HasPrefix(name, top) {
+			return true
+		}
+	}
+	return false
 }
